@@ -244,6 +244,22 @@ def run_constraint(case, R):
                 ct = [years[0]]
                 cons = OP.TotalSpendConstraint(total_spend=[float(10 ** rng.uniform(2, 8)) if rng.random() > 0.15 else (0.0 if rng.random() < 0.5 else 0)], t=ct, budget_factor=float(rng.choice([1.0, 1.0, 0.5, 1.5, 2.0])))  # (the required total is total_spend x budget_factor)
             opt = OP.Optimization(adjustments=adjustments, measurables=[OP.MinimizeMeasurable("ch_prev", 2025)], constraints=[cons])
+            if rng.random() < 0.4:
+                # the same Optimization / adjustment objects have been used before, from another allocation (a loop over budget
+                # levels): limits relative to the initial spend refer to the allocation of *this* use
+                other = {}
+                for j_, k_ in enumerate(names):
+                    ts_ = at.TimeSeries(units="$/year")
+                    for y_ in [2019.0] + years:
+                        ts_.insert(y_, float(alloc[k_].get(y_)) * (2.0 if j_ % 2 == 0 else 0.5))
+                    other[k_] = ts_
+                instr_other = at.ProgramInstructions(start_year=2019.0, alloc=other)
+                try:
+                    x0_, _, _ = opt.get_initialization(pset, instr_other)
+                    opt.get_hard_constraints(x0_, instr_other)
+                except Exception:
+                    pass
+                R.count("optimizations_whose_objects_were_used_before_from_another_allocation")
             try:
                 x0, xmin, xmax = opt.get_initialization(pset, instr)
             except OP.InvalidInitialConditions:
